@@ -123,6 +123,34 @@ CHECKS = {
             'Exhaustive over the bounded fragment space on both sides; the level laws are checked by TLC on recorded implementation output (trace validation).',
             'Trusted: TLC; Script.tla; escape-free literals.',
             'DESIGN.md section 3 C18'),
+    'C08': (['Compiler.tla', 'FM94.tla', 'FM94Gen.tla'],
+            'TLA+ specs FM94.tla (required behaviour) and Compiler.tla (Scoped: the single-pass condition under which the property applies, evaluated by TLC per program; '
+            'compiled-template cache model explored over all request histories); every FM94 behaviour of every scoped program replayed through the real compiled Decoder/Encoder '
+            '(cache sizes 0,1,2,8), through compile -> JSON -> load -> execute, and request histories replayed on one coder object over a message pool sharing templates across table versions',
+            'Structure-complete enumeration (factors, bitmap bits, compression, subsets) of every catalogued program and sampled Table D sequences on the specification; the compiled '
+            'implementation must reproduce the specification for each; non-vacuity of the scope condition is measured.',
+            'Trusted: TLC; FM94.tla; Compiler.Scoped as the reading of "operators opened and closed within one replication scope". One recorded known finding (zero-length bitmap).',
+            'DESIGN.md section 3 C08'),
+    'C10': (['Subset.tla', 'FM94.tla'],
+            'TLA+ spec Subset.tla (which subsets a request designates; refusal) model-checked by TLC over all requests of <=3/4 indices over -1..n; each request applied with '
+            'BufrMessage.subset to real decodes of FM94-generated messages (compressed and not), re-encoded and decoded, compared with the specification subsets; CLI and corpus',
+            'Exhaustive over the bounded request space; data content from FM94 behaviours.',
+            'Trusted: TLC; Subset.tla; FM94.tla; all-ones = missing identification as the property states.',
+            'DESIGN.md section 3 C10'),
+    'C13': (['Caches.tla', 'FM94.tla'],
+            'TLA+ spec Caches.tla (table-group cache with bounded most-recent-first eviction, compiled-template cache, message objects; operations as actions) model-checked by TLC; '
+            'every transition of the state graph emitted with its shortest history (transition tour) and executed against the real code in worker subprocesses with the cache limits '
+            'set as in the model; each step compared with the same operation in a fresh process; one history at the real limit of 50 over 59 table-group keys',
+            'All (state, operation) pairs of the cache model up to the history bound are exercised on the implementation; results must be history-independent.',
+            'Trusted: TLC; Caches.tla; fresh-process results of the implementation as reference (tied to FM94.tla by C01/C02).',
+            'DESIGN.md section 3 C13'),
+    'C20': (['TableDef.tla', 'Tables.tla', 'FM94.tla'],
+            'TLA+ spec TableDef.tla (NCEP definition messages written and read back by the specification; entries in force along a stream) model-checked by TLC; data messages generated by '
+            'FM94.tla under the extended tables (ExtraB/ExtraD); each stream scanned by generate_bufr_message in a fresh subprocess and compared',
+            'Streams of 1..3 definition messages over a pool with overrides, code/character/negative-scale elements, sequences with replication and the NCEP replication-only form; '
+            'all FM94 structure of the data templates.',
+            'Trusted: TLC; TableDef.tla; Table B version 13 for the layout elements; NcepReplicationOnlySequence named deviation.',
+            'DESIGN.md section 3 C20'),
     'C15': (['PathParser.tla', 'Trace_PathParser.tla'],
             'TLA+ spec PathParser.tla (documented grammar as recogniser + 9-state character automaton) model-checked by TLC over every '
             'string up to length 5/6 over a 12-symbol alphabet; TLC-emitted verdicts replayed into NodePathParser; recorded parser '
